@@ -25,7 +25,7 @@ ApiScoped(api) == api \in {"scoped_lock", "scoped_read", "scoped_try_lock", "sco
 
 NoCall == [on |-> FALSE, ci |-> 0, api |-> "", c |-> 0, key |-> "", raws |-> FALSE, acqs |-> <<>>,
            enters |-> 0, quiet |-> FALSE, sw |-> <<>>, sr |-> <<>>, incs |-> FALSE, rel |-> "",
-           faulted |-> FALSE, panicked |-> FALSE, inpanic |-> FALSE, succ |-> FALSE]
+           faulted |-> FALSE, panicked |-> FALSE, inpanic |-> FALSE, succ |-> FALSE, h0 |-> {}, dead0 |-> {}]
 
 MonInit(sid) ==
   LET d == D(sid) IN
@@ -42,6 +42,7 @@ MonInit(sid) ==
     dead   |-> {},
     should |-> [c \in 1..d.nc |-> FALSE],
     shsite |-> [c \in 1..d.nc |-> ""],
+    fsite  |-> "",
     may    |-> [c \in 1..d.nc |-> FALSE],
     op     |-> [t \in 1..d.nt |-> <<>>],
     ended  |-> FALSE,
@@ -60,7 +61,7 @@ Waiting(m, t)    == m.pend[t] # <<>> /\ ~FreeFor(m, m.pend[t][1], m.pend[t][2], 
 Stuck(m)         == /\ \E t \in DOMAIN m.fin : ~m.fin[t]
                     /\ \A t \in DOMAIN m.fin : m.fin[t] \/ Waiting(m, t)
                     /\ \A t \in DOMAIN m.fin : m.pend[t] # <<>> => m.pend[t][1] \notin (m.leaked \cup m.dead)
-                    /\ m.leaked = {}
+                    /\ m.leaked = {} /\ m.dead = {}
 
 KindStr(m, c) == LET co == D(m.sid).C[c] IN
                  IF co.kind \in {"pois"} THEN "pois(" \o co.inner \o ")" ELSE co.kind
@@ -90,7 +91,7 @@ Disturb(m, t) == IF \E u \in DOMAIN m.cur : u # t /\ m.cur[u].quiet
 
 \* C03: first raw acquisition operation of a call must find the thread holding nothing
 FirstRaw(m, t) ==
-  LET m1 == IF m.cur[t].on /\ ~m.cur[t].raws /\ HeldBy(m, t) # {}
+  LET m1 == IF m.cur[t].on /\ ~m.cur[t].raws /\ HeldBy(m, t) # {} /\ m.dead = {}
             THEN Flag(m, "C03", CallSig(m, t, "acquire-while-holding")) ELSE m
   IN [m1 EXCEPT !.cur[t].raws = TRUE]
 
@@ -120,7 +121,7 @@ OnReq(m0, e) ==
             THEN Flag(m1, "C04", CallSig(m1, t, "blocking-op-in-try")) ELSE m1
       m3 == IF m2.op[t] # <<>>
             THEN Flag(m2, "C17", m2.op[t][1] \o "/blocking-op-in-nonacquiring-operation") ELSE m2
-      m4 == IF (m3.hw[e.l] = t) \/ (e.m = "w" /\ m3.hr[e.l][t] > 0)
+      m4 == IF m3.dead = {} /\ ((m3.hw[e.l] = t) \/ (e.m = "w" /\ m3.hr[e.l][t] > 0))
             THEN Flag(m3, "C01", CallSig(m3, t, "self-wait")) ELSE m3
   IN [m4 EXCEPT !.pend[t] = <<e.l, e.m>>]
 
@@ -138,7 +139,8 @@ OrderPairs(m, t, l) ==
 OnAcq(m0, e) ==
   LET t == e.t
       m  == Disturb(m0, t)
-      m1 == IF FreeFor(m, e.l, e.m, t) /\ e.l \notin m.dead THEN m ELSE Flag(m, "ENV", "acq-not-grantable")
+      ma == IF FreeFor(m, e.l, e.m, t) THEN m ELSE Flag(m, "ENV", "acq-not-grantable")
+      m1 == IF e.l \in ma.dead /\ (~ma.cur[t].on \/ e.l \in ma.cur[t].dead0) THEN Flag(ma, "C12", CallSig(ma, t, "killed-lock-acquired-by-blocking-acquisition")) ELSE ma
       m2 == OrderPairs(m1, t, e.l)
       m3 == AddHold(m2, t, e.l, e.m)
   IN [m3 EXCEPT !.pend[t] = <<>>]
@@ -148,7 +150,8 @@ OnTry(m0, e) ==
       m  == Disturb(m0, t)
       m1 == FirstRaw(m, t)
   IN IF e.ok
-     THEN LET m2 == IF FreeFor(m1, e.l, e.m, t) /\ e.l \notin m1.dead THEN m1 ELSE Flag(m1, "ENV", "try-not-grantable")
+     THEN LET m2a == IF FreeFor(m1, e.l, e.m, t) THEN m1 ELSE Flag(m1, "ENV", "try-not-grantable")
+              m2 == IF e.l \in m2a.dead /\ (~m2a.cur[t].on \/ e.l \in m2a.cur[t].dead0) THEN Flag(m2a, "C12", CallSig(m2a, t, "killed-lock-acquired-by-try")) ELSE m2a
           IN AddHold(m2, t, e.l, e.m)
      ELSE m1
 
@@ -160,7 +163,7 @@ OnRel(m0, e) ==
   ELSE LET sym == IF HasHold(m, t, e.l, IF e.m = "w" THEN "r" ELSE "w") THEN "wrong-mode-release"
                   ELSE IF m.hw[e.l] # 0 \/ Readers(m, e.l) # {} THEN "foreign-release"
                   ELSE "release-of-unheld"
-           p   == IF m.cur[t].faulted THEN "C12" ELSE "C05"
+           p   == IF m.cur[t].faulted \/ m.dead # {} THEN "C12" ELSE "C05"
            m1  == Flag(m, p, CallSig(m, t, sym))
        IN \* C17: a non-acquiring operation changed the hold state of a lock
           IF m.op[t] # <<>> THEN Flag(m1, "C17", m.op[t][1] \o "/release-of-unheld-in-non-acquiring-operation") ELSE m1
@@ -171,6 +174,7 @@ OnCall(m, e) ==
       quiet == \A u \in DOMAIN m.fin : u = t \/ m.pend[u] = <<>>
       m1 == IF m.kalive[t] THEN m ELSE Flag(m, "C06", "call-without-live-key")
   IN [m1 EXCEPT !.cur[t] = [NoCall EXCEPT !.on = TRUE, !.ci = e.ci, !.api = e.api, !.c = e.c, !.key = e.key, !.rel = e.rel,
+                                            !.h0 = HeldBy(m, t), !.dead0 = m.dead,
                                             !.quiet = (quiet /\ ApiTry(e.api)),
                                             !.sw = IF ApiTry(e.api) THEN m.hw ELSE <<>>,
                                             !.sr = IF ApiTry(e.api) THEN [l \in DOMAIN m.hw |-> Readers(m, l)] ELSE <<>>]]
@@ -218,16 +222,24 @@ OnRet(m0, e) ==
   ELSE IF e.res \in {"rawpanicked", "libpanic"}
   THEN LET mk == IF e.res = "libpanic" /\ ~cu.faulted /\ m.dead = {}
                  THEN Flag(m, "C10", CallSig(m, t, "lock-unusable-without-raw-fault")) ELSE m
-       IN [mk EXCEPT !.cur[t].panicked = TRUE, !.cur[t].faulted = TRUE]
+           lv == D(m.sid).C[cu.c].lv
+           \* a blocking acquisition panicked although none of its locks ever had a faulting operation:
+           \* some lock was made unusable without a fault of its own
+           mk2 == IF e.res = "libpanic" /\ m.dead # {} /\ lv \cap m.dead = {}
+                  THEN Flag(mk, "C12", mk.fsite \o "/other-lock-unusable-after-raw-panic") ELSE mk
+       IN [mk2 EXCEPT !.cur[t].panicked = TRUE]
   ELSE
-   LET m1 == IF succ /\ ~ApiScoped(cu.api) /\ ~HoldsExactly(m, t, cu.c, md)
+   LET m1 == IF succ /\ ~ApiScoped(cu.api) /\ m.dead = {} /\ ~HoldsExactly(m, t, cu.c, md)
              THEN Flag(m, "C04", CallSig(m, t, "held-set-differs-from-leaves")) ELSE m
-       m2 == IF ~succ /\ HeldBy(m1, t) # {}
+       m2 == IF ~succ /\ HeldBy(m1, t) # {} /\ m1.dead = {}
              THEN Flag(m1, "C04", CallSig(m1, t, "failed-try-keeps-locks")) ELSE m1
        m3 == IF ApiScoped(cu.api) /\ cu.enters # (IF succ THEN 1 ELSE 0)
              THEN Flag(m2, "C04", CallSig(m2, t, "closure-count")) ELSE m2
        m4 == IF ApiTry(cu.api) /\ cu.quiet /\ D(m.sid).C[cu.c].lv \cap m.dead = {} /\ succ # TryExpected(m3, t)
-             THEN Flag(m3, "C13", CallSig(m3, t, IF succ THEN "try-succeeded-on-held" ELSE "try-failed-on-free")) ELSE m3
+             THEN (IF m3.dead = {}
+                   THEN Flag(m3, "C13", CallSig(m3, t, IF succ THEN "try-succeeded-on-held" ELSE "try-failed-on-free"))
+                   ELSE IF ~succ THEN Flag(m3, "C12", m3.fsite \o "/other-lock-unusable-after-raw-panic") ELSE m3)
+             ELSE m3
        m5 == IF ApiTry(cu.api) /\ cu.quiet /\ ~succ /\ ~TableSame(m4, t)
              THEN Flag(m4, "C13", CallSig(m4, t, "failed-try-changed-holds")) ELSE m4
        m6 == IF ~ApiTry(cu.api) /\ ~succ
@@ -238,7 +250,7 @@ OnRet(m0, e) ==
 OnEnter(m, e) ==
   LET t == e.t
       cu == m.cur[t]
-      m1 == IF cu.on /\ HoldsExactly(m, t, cu.c, ApiMode(cu.api)) THEN m
+      m1 == IF (cu.on /\ HoldsExactly(m, t, cu.c, ApiMode(cu.api))) \/ m.dead # {} THEN m
             ELSE Flag(m, "C04", CallSig(m, t, "closure-entered-without-all-leaves"))
       m2 == IF cu.on THEN PoisObs(m1, t, cu.c, e.errs) ELSE m1
   IN [m2 EXCEPT !.cur[t].enters = @ + 1, !.cur[t].incs = TRUE]
@@ -266,12 +278,12 @@ OnAcc(m, e) ==
 OnFin(m, e) ==
   LET t  == e.t
       cu == m.cur[t]
-      m1 == IF e.keyback /\ HeldBy(m, t) # {}
+      m1 == IF e.keyback /\ HeldBy(m, t) # {} /\ m.dead = {}
             THEN Flag(m, IF cu.panicked THEN "C11" ELSE "C03", CallSig(m, t, "key-back-while-holding")) ELSE m
       m2 == IF cu.rel = "forget" /\ cu.succ /\ ~cu.panicked THEN [m1 EXCEPT !.leaked = @ \cup HeldBy(m1, t)] ELSE m1
-      m3 == IF cu.panicked /\ HeldBy(m2, t) \ m2.leaked # {} /\ ~cu.faulted
+      m3 == IF cu.panicked /\ (HeldBy(m2, t) \ (m2.leaked \cup cu.h0)) # {} /\ ~cu.faulted /\ m2.dead = {}
             THEN Flag(m2, "C11", CallSig(m2, t, "locks-held-after-panic")) ELSE m2
-      m4 == IF cu.faulted /\ (HeldBy(m3, t) \ m3.dead) # {}
+      m4 == IF cu.faulted /\ (HeldBy(m3, t) \ (m3.dead \cup cu.h0)) # {}
             THEN Flag(m3, "C12", CallSig(m3, t, "locks-held-after-raw-panic")) ELSE m3
   IN [m4 EXCEPT !.cur[t] = NoCall,
                 !.kalive[t] = (e.keyback \/ (cu.rel = "forget" /\ cu.succ /\ ~cu.panicked))]
@@ -280,7 +292,8 @@ OnGet(m, e) ==
   LET t == e.t
       m1 == IF e.some = ~m.kalive[t] THEN m
             ELSE Flag(m, "C06", IF e.some THEN "second-live-key" ELSE "key-not-obtainable")
-      m2 == IF e.some /\ HeldBy(m1, t) \ m1.leaked # {} THEN Flag(m1, "C03", "key-obtained-while-holding") ELSE m1
+      m2 == IF e.some /\ HeldBy(m1, t) \ m1.leaked # {} /\ m1.dead = {}
+            THEN Flag(m1, "C03", "key-obtained-while-holding") ELSE m1
   IN [m2 EXCEPT !.kalive[t] = TRUE]     \* after a get the thread's key is alive either way
 
 \* user code panics inside the critical section of its current call
@@ -290,6 +303,17 @@ OnPanic(m, e) ==
       ps == IF cu.c # 0 THEN D(m.sid).C[cu.c].pois ELSE {} IN
   [m EXCEPT !.cur[t].inpanic = TRUE,
             !.may = [c \in DOMAIN m.may |-> m.may[c] \/ c \in ps]]
+
+\* an injected fault: the raw operation had no effect and panicked
+OnRawPanic(m, e) ==
+  LET t  == e.t
+      cu == m.cur[t]
+      ps == IF cu.c # 0 THEN D(m.sid).C[cu.c].pois ELSE {}
+      m1 == IF e.op = "unlock" /\ ~HasHold(m, t, e.l, e.m)
+            THEN Flag(m, "C12", CallSig(m, t, "release-of-unheld")) ELSE m
+  IN [m1 EXCEPT !.dead = @ \cup {e.l}, !.cur[t].faulted = TRUE, !.pend[t] = <<>>,
+                !.fsite = IF cu.c # 0 THEN KindStr(m, cu.c) \o "/" \o cu.api ELSE "nocall",
+                !.may = [c \in DOMAIN m.may |-> m.may[c] \/ c \in ps]]
 
 OnProbe(m, e) ==
   IF e.some = ~m.kalive[e.t] THEN m
@@ -315,7 +339,7 @@ OnDeadlock(m, e) == IF Stuck(m) THEN Flag(m, "C01", "deadlock-reported-by-schedu
 
 OnEnd(m0, e) ==
   LET m == [m0 EXCEPT !.ended = TRUE] IN
-  IF \E l \in DOMAIN m.hw : l \notin m.leaked /\ l \notin m.dead /\ (m.hw[l] # 0 \/ Readers(m, l) # {})
+  IF m.dead = {} /\ \E l \in DOMAIN m.hw : l \notin m.leaked /\ (m.hw[l] # 0 \/ Readers(m, l) # {})
   THEN Flag(m, "C05", "lock-held-at-end") ELSE m
 
 MonStep(m, ev) ==
@@ -335,6 +359,7 @@ MonStep(m, ev) ==
       [] ev.e = "end"      -> OnEnd(m, ev)
       [] ev.e = "deadlock" -> OnDeadlock(m, ev)
       [] ev.e = "panic"    -> OnPanic(m, ev)
+      [] ev.e = "rawpanic" -> PostChecks(OnRawPanic(m, ev))
       [] ev.e = "probe"    -> OnProbe(m, ev)
       [] ev.e = "dropkey"  -> [m EXCEPT !.kalive[ev.t] = FALSE]
       [] ev.e = "forgetkey" -> m
@@ -365,6 +390,7 @@ RuleHits(m, ev) ==
                          \cup (IF cu.faulted THEN {"C12"} ELSE {})
     [] ev.e = "get"   -> {"C06"}
     [] ev.e = "probe" -> {"C06"}
+    [] ev.e = "rawpanic" -> {"C12"}
     [] ev.e = "panic" -> {"C11"} \cup (IF cu.c # 0 /\ D(m.sid).C[cu.c].pois # {} THEN {"C10"} ELSE {})
     [] ev.e = "op"    -> (IF ev.ph = "end" THEN {"C17"} ELSE {}) \cup (IF ev.name = "is_poisoned" /\ ev.ph = "end" THEN {"C10"} ELSE {})
     [] ev.e = "end"   -> {"C05", "C01"}
